@@ -63,7 +63,8 @@ CHECKS = {
         "1-8 reader threads on the real AnalysisHost under seeded yields/sleeps; the globally ordered event log is converted to a model schedule, "
         "run by the Lean driver, and the outcome (answered / cancelled per reader, final revision) must coincide; the oracle compares every answer "
         "with a sequential reference for the snapshot's own version, checks no panic, bounded apply latency against a 0.8 s cold query batch, and "
-        "that later snapshots see the new workspace. PARTIAL: real interleavings are sampled, not enumerated; salsa is trusted. The readers' module contains deeply nested code and runs on the big module let the change arrive up to tenths of a second into a query (a cancelled long query must still end as Cancelled, never as a panic or an abort)."),
+        "that later snapshots see the new workspace. PARTIAL: real interleavings are sampled, not enumerated; salsa is trusted. The readers' module contains deeply nested code and runs on the big module let the change arrive up to tenths of a second into a query (a cancelled long query must still end as Cancelled, never as a panic or an abort). LSP stage (oracle only): on a 1200-function module every request kind is sent "
+        "together with a didChange in ONE write; the answer must be the quiescent answer before the change, the one after it, or an error - a definite null that neither workspace gives is a violation (the handlers' conversion of Cancelled)."),
   note=TB + "Modelled, not verified: salsa's runtime (revision counter, query lock, cancellation flag) by its documented contract; thread scheduling of the OS.", ref="5.C12, 4.6"),
  "C11": dict(
   technique="Lean 4 proof of history independence of the reachable database inputs (M-db) + tie on the inputs through a read-only hook + fresh-instance oracle",
